@@ -227,7 +227,7 @@ func init() {
 		LevelNote: "Trusted: go/ssa, executor and its cooperative thread model (preemption only at synchronisation operations: data-race-free code assumed), z3. The worker in part (1) is a skeleton written in the harness that calls the real manager functions at each exit; part (3) ties that skeleton to the real loop. Control-plane construction, listeners, retirement draining and signal delivery are not executed.",
 		Technique: techniqueText,
 		Explanation: "Bounded schedule exploration of the reload manager with symbolic schedules, plus control-flow-graph path queries over (*Runner).Run.",
-		Bounds: map[string]string{"quick": "3 signals + 1 follow-up request, 4 worker exits per request, <=1 preemption (plus all orders at blocking points); counter: 4 begin/end operations, 2 concurrent ends with <=2 preemptions; CFG walks of <= 2x|blocks| steps (132 and 80)", "thorough": "<=2 preemptions; 6 begin/end operations"},
+		Bounds: map[string]string{"quick": "2 signals with a free switch point between them + 1 follow-up request, 3 worker exits per request (early failure, success, success with retirement), <=1 preemption (plus all orders at blocking points); counter: 4 begin/end operations, 2 concurrent ends with <=2 preemptions; CFG walks of <= 2x|blocks| steps (132 and 80)", "thorough": "3 signals, 4 exits, <=2 preemptions (explores what the 20-minute budget allows; reported INCOMPLETE beyond it); 6 begin/end operations"},
 		Outside: []string{"the body of each reload stage (config load, control-plane construction, listener hand-over, retirement drain)", "OS signal delivery and coalescing in the runtime", "more than three signals in flight", "data races on non-atomic variables"},
 		Assumptions: []string{"goroutines switch only at synchronisation operations (channel, mutex, atomic, sync.Map, timers)", "progress file replaced by a variable; suppression hooks in package cmd replaced by counters (the real counter is checked in part 2)", "CFG queries: branch conditions are free, so an infeasible walk could be reported (none is on the current tree)"},
 		QuickBudget: 10 * time.Minute, ThoroughBudget: 20 * time.Minute,
